@@ -1,6 +1,7 @@
 import MinterModel.Ledger
 import MinterModel.Kernels
 import MinterModel.Parse
+import MinterModel.Moves
 /-
   L2: transaction execution (ExecutorV3.RunTx + the data handlers), written with L0 kernels and L1 primitives.
   A handler computes a response code and a *plan* (list of primitives); the state changes only by applying the plan.
@@ -88,9 +89,12 @@ def TxIn.ofKV (l : List (String × String)) : TxIn :=
 
 structure Outcome where
   code : Nat
-  plan : List Prim := []
+  moves : List Move := []
   tags : List (String × String) := []
   deriving Repr
+
+/-- The primitives an outcome applies to the state. -/
+def Outcome.plan (o : Outcome) : List Prim := planOf o.moves
 
 def priceOf (s : State) (k : String) : Int := (s.commission.lookup k).getD 0
 def priceCoin (s : State) : Coin := (priceOf s "coin").toNat
@@ -127,8 +131,9 @@ def checkSwapQuote (r0 r1 valueIn valueOut : Int) (isBuy : Bool) : M (Except Nat
       let vo := if valueOut = 0 then 1 else valueOut
       if x < vo then pure (.error 303) else pure (.ok x)
 
-/-- `PairSellWithOrders(a, b, amountIn, 0)` on a pair without orders: plan fragment and the amount received. -/
-def pairSellPlan (s : State) (a b : Coin) (amountIn : Int) : M (List Prim × Int) :=
+/-- `PairSellWithOrders(a, b, amountIn, 0)` on a pair without orders, paid by `payer`; the proceeds go to the
+    fee pool (`toRewards`) or to `dest`. Returns the move and the amount received. -/
+def pairSellMove (s : State) (payer : Addr) (a b : Coin) (amountIn : Int) (toRewards : Bool) (dest : Addr) : M (Move × Int) :=
   match poolRes s a b with
   | none => throw (.panic "PairSellWithOrders on a missing pool")
   | some (r0, r1) =>
@@ -141,7 +146,8 @@ def pairSellPlan (s : State) (a b : Coin) (amountIn : Int) : M (List Prim × Int
     | .nil => throw (.panic "INSUFFICIENT_OUTPUT_AMOUNT")
     | .val out =>
       if out ≤ 0 then throw (.panic "INSUFFICIENT_OUTPUT_AMOUNT") else
-      pure ([poolDelta s a b net (-out), .addBal burnAddress a (com1000 amountIn)], out)
+      if (getPool s a b).isSome then pure (.poolSell payer a b true net out (com1000 amountIn) toRewards dest, out)
+      else pure (.poolSell payer b a false net out (com1000 amountIn) toRewards dest, out)
 
 /-! ### Commission -/
 
@@ -183,14 +189,16 @@ def calcCommission (P : Params) (o : Oracle) (s : State) (gas : Coin) (inBase : 
   | .error _, .ok r => return .ok ⟨r, inBase, false⟩
 
 /-- The deliver-side payment of a commission by `payer`: plan and the base-coin value that reached the rewards pool. -/
-def payCommission (s : State) (payer : Addr) (gas : Coin) (c : Com) : M (List Prim × Int × Int) := do
+def payCommission (s : State) (payer : Addr) (gas : Coin) (c : Com) : M (List Move × Int × Int) := do
   if c.fromPool then
-    let (pl, out) ← pairSellPlan s gas 0 c.commission
-    return (pl ++ [.addBal payer gas (-c.commission), .addRewards out], c.commission, out)
+    let (mv, out) ← pairSellMove s payer gas 0 c.commission true 0
+    return ([mv], c.commission, out)
   else if gas != 0 then
-    return ([.addVolume gas (-c.commission), .addReserve gas (-c.inBase), .addBal payer gas (-c.commission), .addRewards c.inBase], c.commission, c.inBase)
+    return ([.feeBancor payer gas c.commission c.inBase], c.commission, c.inBase)
   else
-    return ([.addBal payer gas (-c.commission), .addRewards c.inBase], c.commission, c.inBase)
+    -- base coin: the Go code debits `commission` and credits `inBase` to the fee pool; they coincide (ComWF)
+    if c.commission != c.inBase then throw (.panic "model invariant: base-coin commission differs from its base value")
+    return ([.feeBase payer c.commission], c.commission, c.inBase)
 
 def typePriceName : Nat → Option String
   | 1 => some "send" | 2 => some "sell_bancor" | 3 => some "sell_all_bancor" | 4 => some "buy_bancor"
@@ -248,7 +256,7 @@ def runSend (P : Params) (o : Oracle) (s : State) (t : TxIn) (price : Int) : M O
     if t.gasCoin != coin && balanceOf s t.sender coin < value then return ← fail 107
     if balanceOf s t.sender t.gasCoin < need then return ← fail 107
     let (pc, cAmt, cBase) ← payCommission s t.sender t.gasCoin com
-    return { code := 0, plan := pc ++ [.addBal t.sender coin (-value), .addBal to coin value, .setNonce t.sender t.nonce],
+    return { code := 0, moves := pc ++ [.transfer t.sender to coin value, .admin (.setNonce t.sender t.nonce)],
              tags := [("tx.commission_amount", toString cAmt), ("tx.commission_in_base_coin", toString cBase)] }
 
 def sumFor (items : List (Coin × Addr × Int)) (c : Coin) : Int :=
@@ -267,8 +275,8 @@ def runMultisend (P : Params) (o : Oracle) (s : State) (t : TxIn) (price : Int) 
     let short := coins.any (fun c => balanceOf s t.sender c < sumFor items c + (if c == t.gasCoin then com.commission else 0))
     if short then return ← fail 107
     let (pc, cAmt, cBase) ← payCommission s t.sender t.gasCoin com
-    let moves := items.flatMap (fun it => [Prim.addBal t.sender it.1 (-it.2.2), Prim.addBal it.2.1 it.1 it.2.2])
-    return { code := 0, plan := pc ++ moves ++ [.setNonce t.sender t.nonce],
+    let moves := items.map (fun it => Move.transfer t.sender it.2.1 it.1 it.2.2)
+    return { code := 0, moves := pc ++ moves ++ [.admin (.setNonce t.sender t.nonce)],
              tags := [("tx.commission_amount", toString cAmt), ("tx.commission_in_base_coin", toString cBase)] }
 
 /-! Shared shape of most handlers: compute the commission, run type specific checks, then pay the commission,
@@ -279,9 +287,9 @@ def withCom (P : Params) (o : Oracle) (s : State) (t : TxIn) (price : Int) (k : 
   | .error c => fail c
   | .ok com => k com
 
-def finish (s : State) (t : TxIn) (com : Com) (body : List Prim) (tags : List (String × String) := []) : M Outcome := do
+def finish (s : State) (t : TxIn) (com : Com) (body : List Move) (tags : List (String × String) := []) : M Outcome := do
   let (pc, cAmt, cBase) ← payCommission s t.sender t.gasCoin com
-  return { code := 0, plan := pc ++ body ++ [.setNonce t.sender t.nonce],
+  return { code := 0, moves := pc ++ body ++ [.admin (.setNonce t.sender t.nonce)],
            tags := [("tx.commission_amount", toString cAmt), ("tx.commission_in_base_coin", toString cBase)] ++ tags }
 
 def oneBip : Int := 1000000000000000000
@@ -319,7 +327,7 @@ def runCreateCoin (P : Params) (o : Oracle) (s : State) (t : TxIn) (price : Int)
     if balanceOf s t.sender 0 < total then return ← fail 107
     let id := nextCoinId s
     let ci : CoinInfo := { id := id, symbol := sym, version := 0, volume := amount, reserve := reserve, crr := crr, maxSupply := maxS, owner := some t.sender, mintable := false, burnable := false }
-    finish s t com [.addBal t.sender 0 (-reserve), .createCoin ci, .addBal t.sender id amount] [("tx.coin_id", toString id)]
+    finish s t com [.createCoin t.sender ci] [("tx.coin_id", toString id)]
 
 /-- CreateToken (30). -/
 def runCreateToken (P : Params) (o : Oracle) (s : State) (t : TxIn) (price : Int) : M Outcome := do
@@ -336,7 +344,7 @@ def runCreateToken (P : Params) (o : Oracle) (s : State) (t : TxIn) (price : Int
     if balanceOf s t.sender t.gasCoin < com.commission then return ← fail 107
     let id := nextCoinId s
     let ci : CoinInfo := { id := id, symbol := sym, version := 0, volume := amount, reserve := 0, crr := 0, maxSupply := maxS, owner := some t.sender, mintable := mintable, burnable := burnable }
-    finish s t com [.createCoin ci, .addBal t.sender id amount] [("tx.coin_id", toString id)]
+    finish s t com [.createCoin t.sender ci] [("tx.coin_id", toString id)]
 
 /-- RecreateCoin (16). -/
 def runRecreateCoin (P : Params) (o : Oracle) (s : State) (t : TxIn) (price : Int) : M Outcome := do
@@ -358,7 +366,7 @@ def runRecreateCoin (P : Params) (o : Oracle) (s : State) (t : TxIn) (price : In
       if t.gasCoin == 0 && balanceOf s t.sender 0 < reserve + com.commission then return ← fail 107
       let id := nextCoinId s
       let ci : CoinInfo := { id := id, symbol := sym, version := 0, volume := amount, reserve := reserve, crr := crr, maxSupply := maxS, owner := some t.sender, mintable := false, burnable := false }
-      finish s t com [.addBal t.sender 0 (-reserve), .bumpVersion old.id (maxVersion s sym + 1), .createCoin ci, .addBal t.sender id amount] [("tx.coin_id", toString id)]
+      finish s t com [.admin (.bumpVersion old.id (maxVersion s sym + 1)), .createCoin t.sender ci] [("tx.coin_id", toString id)]
 
 /-- RecreateToken (31). -/
 def runRecreateToken (P : Params) (o : Oracle) (s : State) (t : TxIn) (price : Int) : M Outcome := do
@@ -378,7 +386,7 @@ def runRecreateToken (P : Params) (o : Oracle) (s : State) (t : TxIn) (price : I
       if balanceOf s t.sender t.gasCoin < com.commission then return ← fail 107
       let id := nextCoinId s
       let ci : CoinInfo := { id := id, symbol := sym, version := 0, volume := amount, reserve := 0, crr := 0, maxSupply := maxS, owner := some t.sender, mintable := mintable, burnable := burnable }
-      finish s t com [.bumpVersion old.id (maxVersion s sym + 1), .createCoin ci, .addBal t.sender id amount] [("tx.coin_id", toString id)]
+      finish s t com [.admin (.bumpVersion old.id (maxVersion s sym + 1)), .createCoin t.sender ci] [("tx.coin_id", toString id)]
 
 /-- EditCoinOwner (17). -/
 def runEditCoinOwner (P : Params) (o : Oracle) (s : State) (t : TxIn) (price : Int) : M Outcome := do
@@ -387,7 +395,7 @@ def runEditCoinOwner (P : Params) (o : Oracle) (s : State) (t : TxIn) (price : I
   if symbolOwner s sym != some t.sender then return ← fail 206
   withCom P o s t price fun com => do
     if balanceOf s t.sender t.gasCoin < com.commission then return ← fail 107
-    finish s t com [.setCoinOwner sym (t.hex "d.NewOwner")]
+    finish s t com [.admin (.setCoinOwner sym (t.hex "d.NewOwner"))]
 
 /-- MintToken (28). -/
 def runMintToken (P : Params) (o : Oracle) (s : State) (t : TxIn) (price : Int) : M Outcome := do
@@ -401,7 +409,7 @@ def runMintToken (P : Params) (o : Oracle) (s : State) (t : TxIn) (price : Int) 
     if ci.version != 0 || symbolOwner s ci.symbol != some t.sender then return ← fail 206
     withCom P o s t price fun com => do
       if balanceOf s t.sender t.gasCoin < com.commission then return ← fail 107
-      finish s t com [.addVolume coin value, .addBal t.sender coin value]
+      finish s t com [.mint t.sender coin value]
 
 /-- BurnToken (29). -/
 def runBurnToken (P : Params) (o : Oracle) (s : State) (t : TxIn) (price : Int) : M Outcome := do
@@ -416,7 +424,7 @@ def runBurnToken (P : Params) (o : Oracle) (s : State) (t : TxIn) (price : Int) 
       if balanceOf s t.sender t.gasCoin < com.commission then return ← fail 107
       let need := if t.gasCoin == coin then value + com.commission else value
       if balanceOf s t.sender coin < need then return ← fail 107
-      finish s t com [.addVolume coin (-value), .addBal t.sender coin (-value)]
+      finish s t com [.mint t.sender coin (-value)]
 
 /-- Dispatch on the transaction type. Types without a model raise `Stop.unmodelled`. -/
 def runData (P : Params) (o : Oracle) (s : State) (_block : Nat) (t : TxIn) (price : Int) : M Outcome :=
@@ -487,7 +495,7 @@ def failFee (P : Params) (o : Oracle) (s : State) (t : TxIn) (code : Nat) : M Ou
     | .error c => fail c
     | .ok cm =>
       let (pc, cAmt, _) ← payCommission s payer t.comCoin cm
-      return { code := code, plan := pc, tags := [("tx.fail_fee", toString cAmt)] }
+      return { code := code, moves := pc, tags := [("tx.fail_fee", toString cAmt)] }
 
 /-- DeliverTx. -/
 def deliverTx (P : Params) (o : Oracle) (s : State) (block : Nat) (t : TxIn) : M Outcome := do
@@ -514,7 +522,7 @@ def deliverTx (P : Params) (o : Oracle) (s : State) (block : Nat) (t : TxIn) : M
     -- the ticker price is burned: moved from the fee pool to the zero address
     let symbolPrice := (t.gasPrice : Int) * tickerPrice s (t.str "d.Symbol")
     if symbolPrice ≤ 0 then return { code := 119 }      -- NOTE: the Go code returns this error *after* Run has mutated the state (S5)
-    return { r with plan := r.plan ++ [.addRewards (-symbolPrice), .addBal 0 0 symbolPrice] }
+    return { r with moves := r.moves ++ [.burnTicker symbolPrice] }
   else
     return r
 
